@@ -41,6 +41,7 @@ type profCase struct {
 	Endpoint string  `json:"endpoint"`
 	Selector bool    `json:"selector,omitempty"`
 	Profiles []PProf `json:"profiles"`
+	Ver      VerCfg  `json:"ver"`
 }
 
 var profEndpoints = []string{"profile-types", "label-names", "label-values", "series", "select-series", "select-series"}
@@ -263,13 +264,14 @@ func predProf(c profCase, o *evid.Obs) error {
 	full := buildProfStore(c.Profiles, nil)
 	o.Tag(w.tags()...)
 	o.Tag("rzone:"+zoneNames[c.RZone], "endpoint:"+c.Endpoint)
+	o.Tag(c.Ver.tags(w, "profiles_v2")...)
 	if c.Cluster {
 		o.Tag("cluster")
 	} else {
 		o.Tag("single-node")
 	}
 	run := func(st *profStore) (map[string]bool, string, []stmtRec, error) {
-		rd, be := newReader(st.db, c.Cluster)
+		rd, be := newReader(st.db, c.Cluster, c.Ver, w)
 		defer rd.Close()
 		var shown map[string]bool
 		var canon string
